@@ -13,7 +13,7 @@ from vlib import Inconclusive, log
 MC_BASE = dict(Keys="{1, 2}", MaxCommits=2, SyncWrites="FALSE", BigVals="{FALSE, TRUE}", Dels="{FALSE}",
                MaxRotate=1, MaxCompact=1, MaxGC=0, MaxDropAll=0, MaxDropPrefix=0, MaxClose=0, MaxCrash=1,
                CrashKinds='{"kill"}', VlogMaxEntries=1, RewriteDel=10, RewriteRatio=10,
-               ContinueAfterCrash="FALSE", DirSyncOnCreate="TRUE", DropTreeFirst="TRUE", ZeroLenLogOK="TRUE",
+               ContinueAfterCrash="FALSE", DirSyncOnCreate="TRUE", DropFlushFirst="TRUE", ZeroLenLogOK="TRUE",
                GCSafe="TRUE")
 INV_ALL = ["TypeOK", "OpensWithoutError", "PrefixRecovered", "NoPartialTxn", "DropAtomicity",
            "ManifestMatchesDisk", "NextTsAboveAll", "KillSafeManifest"]
@@ -98,6 +98,34 @@ def generate(c, name, n, seed, workers=4, timeout=300, exhaustive=False, invaria
     if not out and "Emit" in invariants:
         raise Inconclusive("DiskGen %s produced no workloads" % name)
     return out
+
+
+def features(case):
+    fs = set()
+    for o in case["ops"]:
+        fs.add(o["op"])
+        for w in o.get("w", []):
+            fs.add("write:" + ("del" if w["del"] else "big" if w["big"] else "small"))
+    return fs
+
+
+def select_covering(cases, n, needs, seed):
+    """Pick n workloads from a larger generated pool such that every needed operation kind occurs
+    (greedy cover first, then the pool order, which is already seeded-random)."""
+    pool = list(cases)
+    pick, missing = [], set(needs)
+    while missing and pool and len(pick) < n:
+        best = max(pool, key=lambda cs: len(features(cs) & missing))
+        if not features(best) & missing:
+            break
+        pick.append(best)
+        pool.remove(best)
+        missing -= features(best)
+    for cs in pool:
+        if len(pick) >= n:
+            break
+        pick.append(cs)
+    return pick
 
 
 def op_histogram(cases):
@@ -271,6 +299,8 @@ def crash_case(args):
     """Worker: run one workload with the recorder, re-open its crash images, judge them."""
     (binp, case, ci, kinds, enc, tmpbase, reopen2, want_trace) = args
     d = os.path.join(tmpbase, "case%d" % ci)
+    import shutil
+    shutil.rmtree(d, ignore_errors=True)
     os.makedirs(d, exist_ok=True)
     cp = os.path.join(d, "case.json")
     with open(cp, "w") as f:
@@ -278,7 +308,7 @@ def crash_case(args):
     env = vlib.goenv()
     env["TMPDIR"] = d
     cmd = [binp, "run", "-case", cp, "-out", d] + (["-enc"] if enc else [])
-    rc, out, err, wall = _run(cmd, timeout=300, env=env)
+    rc, out, err, wall = _run(cmd, timeout=900, env=env)
     if rc != 0:
         return {"ci": ci, "error": "crashfs run rc=%s: %s" % (rc, err[-1500:])}
     meta = json.load(open(os.path.join(d, "run.json")))
@@ -291,6 +321,22 @@ def crash_case(args):
     findings = []      # (kind, what, detail, image index, event, point)
     nchecks = 0
     classes = set()
+    # the state of the RUNNING database after every operation (no crash involved): a deviation
+    # here is not a crash-recovery matter; it is reported once, and crash points behind it are
+    # not judged against the prefix rule (they would only repeat it)
+    nk = len(case["ops"][0]["vis"]) if case["ops"] else 0
+    live_dev = None
+    for i, (o, lv) in enumerate(zip(case["ops"], meta.get("live") or [])):
+        if list(lv[:nk]) != list(o["vis"]) and o["op"] not in ("raceAll", "racePrefix"):
+            live_dev = i
+            ks = [k for k in range(nk) if lv[k] != o["vis"][k]]
+            k = ks[0]
+            cls = "deleted-key-resurrected" if o["vis"][k] == 0 else "key-lost" if lv[k] == 0 else "wrong-value"
+            gc_before = any(p["op"] == "gc" for p in case["ops"][:i + 1])
+            findings.append({"kind": "live", "what": "%s after=%s gc-before=%s" % (cls, o["op"], "yes" if gc_before else "no"),
+                             "detail": "running DB after operation %d (%s): visible %s, specification %s" % (i, o["op"], list(lv[:nk]), o["vis"]),
+                             "img": -1, "ev": -1, "point": "op.done", "op": o["op"], "files": [], "note": "", "manApp": 0})
+            break
     for i in sel:
         im = imgs[i]
         obs = res.get(i)
@@ -302,6 +348,8 @@ def crash_case(args):
         for k in ks:
             classes.add("%s|%s|%s" % (k, opname, im["points"][im["kinds"].index(k)]))
         bad = judge(case, meta, im, obs, ks)
+        if live_dev is not None and (im["done"] > live_dev or (im["inop"] and im["op"] >= live_dev)):
+            bad = [(w, dt) for w, dt in bad if w not in ("not-a-prefix", "acked-lost", "drop-atomicity")]
         for what, detail in bad:
             for k in ks:
                 j = im["kinds"].index(k)
@@ -360,6 +408,8 @@ def signature(f):
     created files -- the intended DirSyncOnCreate protocol -- have avoided it, and for which
     file kinds; zero-length log files; stage of a drop)."""
     kind, what = f["kind"], f["what"]
+    if kind == "live":
+        return "disk:live %s" % what
     if what.startswith("open-error newfile-"):
         # a zero-length .mem / .vlog in the directory (z.NewFile returned as an error)
         return "disk:%s %s" % (kind, what)
@@ -375,7 +425,7 @@ def signature(f):
     return sig + " op=%s point=%s" % (f["op"], f["point"])
 
 
-def crash_campaign(c, cases, kinds, label, enc=False, nproc=None, reopen2=False, timeout=1500, full_confirm=3):
+def crash_campaign(c, cases, kinds, label, enc=False, nproc=None, reopen2=False, timeout=3600, full_confirm=3):
     """Run every workload with the recorder, check all crash images of the given kinds."""
     binp = vlib.go_build("cmd/crashfs")
     tmp = vlib.scratch("crash-")
@@ -420,7 +470,7 @@ def crash_campaign(c, cases, kinds, label, enc=False, nproc=None, reopen2=False,
         # signatures additionally by running the whole workload again from an empty directory
         r = results[f["ci"]]
         ok = recheck_image(binp, case, r, f, tmp)
-        if ok and full < full_confirm:
+        if ok and (full < full_confirm or f["kind"] == "live"):
             full += 1
             ok = confirm(binp, case, f, kinds, enc, tmp)
         if not ok:
@@ -434,6 +484,8 @@ def crash_campaign(c, cases, kinds, label, enc=False, nproc=None, reopen2=False,
 
 
 def recheck_image(binp, case, r, f, tmp):
+    if f["kind"] == "live":
+        return True
     meta = json.load(open(os.path.join(r["dir"], "run.json")))
     try:
         res = check_images(binp, os.path.join(r["dir"], "images.gob"), [f["img"]], r["dir"])
@@ -451,6 +503,8 @@ def confirm(binp, case, f, kinds, enc, tmp):
     for g in r["findings"]:
         if g["ev"] == f["ev"] and g["kind"] == f["kind"] and g["what"] == f["what"]:
             return True
+    if f["kind"] == "live":
+        return False
     # event numbering can shift by background activity: accept the same point/operation/what
     for g in r["findings"]:
         if g["point"] == f["point"] and g["op"] == f["op"] and g["kind"] == f["kind"] and g["what"] == f["what"]:
@@ -544,8 +598,15 @@ def real_kill_confirm(c, binp, case, result, events, enc=False):
     by_ev = {}
     for i, im in enumerate(meta["images"]):
         for ev, k, p in zip(im["evs"], im["kinds"], im["points"]):
-            if k == "kill":
+            if k == "kill" and p != "flush.start":   # emitted by the flusher goroutine, asynchronous to the driver
                 by_ev[ev] = (i, p)
+    occ_index, cnt, cur = {}, {}, None
+    for ln in open(os.path.join(result["dir"], "trace.ndjson")):
+        e = json.loads(ln)
+        if e["op"] != cur or e["ev"] == "op.start":
+            cur, cnt = e["op"], {}
+        cnt[e["ev"]] = cnt.get(e["ev"], 0) + 1
+        occ_index.setdefault((e["ev"], e["op"], cnt[e["ev"]]), []).append(e["i"])
     out = []
     for n in events:
         if n not in by_ev:
@@ -557,32 +618,41 @@ def real_kill_confirm(c, binp, case, result, events, enc=False):
         env["TMPDIR"] = d
         cmd = [binp, "killrun", "-case", cp, "-dbdir", os.path.join(d, "db"), "-acklog", os.path.join(d, "ack"),
                "-killat", str(n)] + (["-enc"] if enc else [])
-        rc, so, se, _ = _run(cmd, timeout=120, env=env)
+        rc, so, se, _ = _run(cmd, timeout=900, env=env)
         if rc != 137:
             raise Inconclusive("killrun did not die at event %d (rc=%s): %s" % (n, rc, se[-500:]))
         last = open(os.path.join(d, "ack")).read().strip().splitlines()[-1].split()
         if last[0] != "kill":
             raise Inconclusive("acknowledgement log has no kill record: %r" % last)
-        point, op, inop, done = last[2], int(last[3]), last[4] == "true", int(last[5])
+        point, op, inop, done, occ = last[2], int(last[3]), last[4] == "true", int(last[5]), int(last[6])
         commit_ts = [0] * len(case["ops"])
         for ln in open(os.path.join(d, "ack")):
             t = ln.split()
             if t[0] == "done":
                 commit_ts[int(t[1])] = int(t[2])
         rc, so, se, _ = _run([binp, "checkdir", "-dir", os.path.join(d, "db")] + (["-enc"] if enc else []),
-                             timeout=120, env=env)
+                             timeout=900, env=env)
         if rc != 0 or not so.strip():
             obs = {"panic": "checkdir rc=%s %s" % (rc, se[-800:]), "openErr": ""}
         else:
             obs = json.loads(so.strip().splitlines()[-1])
-        i, p_img = by_ev[n]
         im = {"op": op, "inop": inop, "done": done}
         bad = judge(case, {"commitTs": commit_ts}, im, obs, ["realkill"])
-        img_obs = check_images(binp, os.path.join(result["dir"], "images.gob"), [i], d)[i]
-        same = (point == p_img and
-                [(v["key"], v["ts"], v["del"], v.get("v")) for v in (obs.get("dump") or []) if v["key"] != "zz-probe"] ==
-                [(v["key"], v["ts"], v["del"], v.get("v")) for v in (img_obs.get("dump") or []) if v["key"] != "zz-probe"] and
-                obs.get("openErr", "") == img_obs.get("openErr", ""))
+        # the flusher's flush.start hook races with the driver's hooks during a rotation, so the
+        # numbering can differ by one between two runs: compare with the image of the same hook
+        # point among the neighbouring events
+        # identify the event by (hook point, operation, k-th occurrence inside the operation)
+        cands = [by_ev[m] for m in occ_index.get((point, op, occ), []) if m in by_ev]
+        if not cands:
+            continue
+        key = lambda o: ([(v["key"], v["ts"], v["del"], v.get("v")) for v in (o.get("dump") or []) if v["key"] != "zz-probe"],
+                         o.get("openErr", ""))
+        same, img_obs = False, None
+        for i, _ in cands:
+            img_obs = check_images(binp, os.path.join(result["dir"], "images.gob"), [i], d)[i]
+            if key(obs) == key(img_obs):
+                same = True
+                break
         out.append({"event": n, "point": point, "same_as_image": same, "findings": [w for w, _ in bad]})
         if not same:
             raise Inconclusive("real kill at event %d (%s) and its image disagree: kill=%s image=%s" % (
@@ -599,7 +669,7 @@ def _race_one(args):
     binp, path, sid, tmp = args
     env = vlib.goenv()
     env["TMPDIR"] = tmp
-    rc, so, se, _ = _run([binp, "dropwriters", "-cases", path, "-only", sid], timeout=120, env=env)
+    rc, so, se, _ = _run([binp, "dropwriters", "-cases", path, "-only", sid], timeout=900, env=env)
     if rc != 0 or not so.strip():
         return {"error": "dropwriters %s rc=%s: %s" % (sid, rc, se[-800:])}
     return json.loads(so.strip().splitlines()[-1])
@@ -795,7 +865,8 @@ def manifest_replay(c, cases, label, everybyte=1, nproc=None, timeout=1200):
                 if t["fill"] == "trunc":
                     ntrunc += 1
                     if t["err"] or not _man_eq(t["man"], want) or t["trunc"] != bounds[k]:
-                        dev.append(("manifest:truncated-replay", "cut at byte %d (record %d): want %s trunc %d, got %s trunc %s err %r" % (
+                        cls = "length-exceeds-file-size" if "Buffer length" in t["err"] else "error" if t["err"] else "state"
+                        dev.append(("manifest:truncated-replay %s" % cls, "cut at byte %d (record %d): want %s trunc %d, got %s trunc %s err %r" % (
                             t["x"], k, want, bounds[k], t["man"], t["trunc"], t["err"]), i))
                         break
                 else:
@@ -809,3 +880,294 @@ def manifest_replay(c, cases, label, everybyte=1, nproc=None, timeout=1200):
                              "truncation_offsets": ntrunc, "zero_filled_offsets": nzero,
                              "wall_s": round(time.time() - t0, 1)})
     return results, dev, (nsteps, ntrunc, nzero)
+
+
+# ------------------------------------------------------------------------------- torn logs (C09)
+def logiterate_cases(c, name, n, seed, maxlen=5, k=3, timeout=300):
+    """LogIterateGen: model-checks the LogIterate properties over ALL record-class sequences up to
+    maxlen (each with every single record damaged) and emits the predictions for length maxlen."""
+    d = vlib.stage_specs(["disk"])
+    write_cfg(os.path.join(d, "li.cfg"), "Spec", {"MaxLen": maxlen, "K": k},
+              ["AllProps", "DamageIsLocal", "Emit"], subst=[("Classes", "AllClasses")])
+    res = vlib.run_tlc(d, "LogIterateGen", "li.cfg", timeout=timeout, workers=4)
+    c.add_tlc("LogIterate:%s" % name, res)
+    vlib.require_tlc_ok(res, "LogIterateGen")
+    cases = sorted(res.cases, key=lambda h: json.dumps(h, sort_keys=True))
+    # Selection only (never the verdict): make sure the sample discriminates the classes the
+    # state machine distinguishes. For each sequence compute what three careless readers would
+    # replay from the undamaged file; a sequence on which the specification disagrees with such a
+    # reader exercises that rule (end-marker timestamp compared, entries wait for their marker,
+    # plain entry inside a transaction stops the replay).
+    def careless(h, mode):
+        out, pend, lc = [], [], 0
+        for i, r in enumerate(h["recs"], 1):
+            if r["t"] == "ent":
+                if mode == "no-marker":
+                    out.append(i)
+                    continue
+                if lc not in (0, r["c"]) and mode != "ts-change-ok":
+                    break
+                lc = r["c"]
+                pend.append(i)
+            elif r["t"] == "fin":
+                if mode == "no-marker":
+                    continue
+                if lc != r["c"] and not (mode == "fin-ts-ignored" and lc != 0):
+                    break
+                out += pend
+                pend, lc = [], 0
+            else:
+                if lc != 0 and mode != "plain-in-txn-ok":
+                    break
+                out.append(i)
+        return out
+
+    def interesting(h):
+        outs = set(json.dumps(cu["applied"]) for cu in h["cuts"])
+        return len(outs) > 1
+    rnd = random.Random(seed)
+    pick, used = [], set()
+    modes = ("fin-ts-ignored", "no-marker", "plain-in-txn-ok", "ts-change-ok")
+    per_mode = max(1, n // 8)
+    discr = {}
+    for m in modes:
+        cand = [i for i, h in enumerate(cases) if careless(h, m) != h["cuts"][0]["applied"]]
+        discr[m] = len(cand)
+        rnd.shuffle(cand)
+        for i in cand[:per_mode]:
+            if i not in used:
+                used.add(i)
+                pick.append(cases[i])
+    good = [i for i, h in enumerate(cases) if interesting(h) and i not in used]
+    rnd.shuffle(good)
+    for i in good:
+        if len(pick) >= n:
+            break
+        used.add(i)
+        pick.append(cases[i])
+    c.cov["logiterate_discriminating_sequences"] = discr
+    good = [h for h in cases if interesting(h)]
+    c.cov["logiterate_sequences_total"] = len(cases)
+    c.cov["logiterate_sequences_where_damage_matters"] = len(good)
+    return pick[:n]
+
+
+def torn_wal(c, cases, enc, label, nproc=None, timeout=1500):
+    binp = vlib.go_build("cmd/disktorn")
+    d = vlib.scratch("torn-")
+    inp = os.path.join(d, "cases.ndjson")
+    with open(inp, "w") as f:
+        for h in cases:
+            f.write(json.dumps(h) + "\n")
+    nproc = nproc or min(vlib.NCPU, len(cases))
+    env = vlib.goenv()
+    env["TMPDIR"] = d
+    procs = []
+    for s in range(nproc):
+        out = open(os.path.join(d, "res%d.ndjson" % s), "w")
+        cmd = [binp, "wal", "-cases", inp, "-shard", str(s), "-nshards", str(nproc)] + (["-enc"] if enc else [])
+        procs.append((subprocess.Popen(cmd, stdout=out, stderr=subprocess.PIPE, env=env), out))
+    t0 = time.time()
+    results = {}
+    for s, (p, out) in enumerate(procs):
+        try:
+            _, err = p.communicate(timeout=max(1, timeout - (time.time() - t0)))
+        except subprocess.TimeoutExpired:
+            for q, _ in procs:
+                q.kill()
+            raise Inconclusive("disktorn wal timed out (%s)" % label)
+        out.close()
+        if p.returncode != 0:
+            raise Inconclusive("disktorn wal failed rc=%s (%s): %s" % (p.returncode, label, err.decode("utf-8", "replace")[-1500:]))
+        for line in open(os.path.join(d, "res%d.ndjson" % s)):
+            r = json.loads(line)
+            results[r["case"]] = r
+    if len(results) != len(cases):
+        raise Inconclusive("disktorn wal returned %d results for %d cases" % (len(results), len(cases)))
+    dev, nvar, classes = [], 0, set()
+    for i, h in enumerate(cases):
+        r = results[i]
+        nvar += r["variants"]
+        pred = {cu["j"]: cu for cu in h["cuts"]}
+        for o in r["outcomes"]:
+            want = pred[o["j"]]["applied"]
+            got = o["applied"] or []
+            cls = "%s|%s|%s" % ("".join(x["t"][0] + str(x["c"]) for x in h["recs"]), o["j"], o["fill"])
+            classes.add(("enc|" if enc else "") + cls)
+            rec = h["recs"][o["j"] - 1]["t"] if o["j"] <= len(h["recs"]) else "none"
+            if o["openErr"]:
+                dev.append(("torn-wal:open-error fill=%s record=%s" % (o["fill"], rec), "%s: cut in record %d at byte %d (+%d): %s" % (
+                    cls, o["j"], o["x0"], o["rel0"], o["openErr"][:200]), i))
+            elif got != want or o["extra"]:
+                dev.append(("torn-wal:replayed-records fill=%s record=%s" % (o["fill"], rec),
+                            "%s: cut in record %d at byte %d (+%d, %d offsets): spec replays records %s, Open recovered %s %s" % (
+                                cls, o["j"], o["x0"], o["rel0"], o["n"], want, got, o["extra"]), i))
+    c.cov["engines"].append({"torn": label, "files": len(cases), "variants_opened": nvar, "encrypted": enc,
+                             "deviating_outcomes": len(dev), "wall_s": round(time.time() - t0, 1)})
+    return dev, nvar, classes
+
+
+def torn_vlog(c, n, enc, multi, label, timeout=900, nproc=6):
+    binp = vlib.go_build("cmd/disktorn")
+    d = vlib.scratch("tornv-")
+    env = vlib.goenv()
+    env["TMPDIR"] = d
+    t0 = time.time()
+
+    def one(s):
+        cmd = [binp, "vlog", "-n", str(n), "-shard", str(s), "-nshards", str(nproc)] + (["-enc"] if enc else []) + (["-multi"] if multi else [])
+        return _run(cmd, timeout=timeout, env=env)
+    with cf.ThreadPoolExecutor(max_workers=nproc) as ex:
+        outs = list(ex.map(one, range(nproc)))
+    r = None
+    for rc, so, se, _ in outs:
+        if rc != 0 or not so.strip():
+            raise Inconclusive("disktorn vlog failed rc=%s: %s" % (rc, se[-1500:]))
+        x = json.loads(so.strip().splitlines()[-1])
+        if r is None:
+            r = x
+        else:
+            if x["offsets"] != r["offsets"]:
+                raise Inconclusive("disktorn vlog shards built different files")
+            r["outcomes"] += x["outcomes"]
+            r["variants"] += x["variants"]
+    wall = time.time() - t0
+    offs = r["offsets"]
+    dev, classes, obs = [], set(), {}
+    for o in r["outcomes"]:
+        j = o["j"]
+        classes.add("%s|%s|%s|%s" % (label, j, o["fill"], o["truncOff"]))
+        want_trunc = offs[j - 1][0] if j <= n else offs[-1][1]     # LogIterate: valid = j - 1 plain records
+        if o["openErr"]:
+            dev.append(("torn-vlog:open-error fill=%s" % o["fill"], "cut in record %d at byte %d: %s" % (j, o["x0"], o["openErr"][:200])))
+            continue
+        if o["truncOff"] != want_trunc:
+            dev.append(("torn-vlog:truncation-offset fill=%s" % o["fill"],
+                        "cut in record %d at byte %d (+%d): value log truncated at %d, spec: %d" % (j, o["x0"], o["rel0"], o["truncOff"], want_trunc)))
+        for i, rd in enumerate(o["reads"], 1):
+            if i < j and rd != "ok":
+                dev.append(("torn-vlog:intact-record-unreadable fill=%s" % o["fill"], "record %d (before the damaged record %d) reads %s" % (i, j, rd)))
+            if i >= j and rd in ("ok", "garbage") and j <= n:
+                if rd == "garbage":
+                    dev.append(("torn-vlog:damaged-content-returned fill=%s" % o["fill"], "record %d reads %s after a cut in record %d" % (i, rd, j)))
+            if i >= j and j <= n:
+                obs[rd] = obs.get(rd, 0) + o["n"]
+    c.cov["engines"].append({"torn": label, "records": n, "variants_opened": r["variants"], "encrypted": enc,
+                             "reads_of_keys_whose_value_was_cut": obs, "wall_s": round(wall, 1)})
+    return dev, r["variants"], classes
+
+
+def torn_manifest_images(c, cases, label, enc=False, per_case=3, nproc=None, timeout=1500):
+    """MANIFEST torn tails on real directories: kill images taken at fs.append of the MANIFEST,
+    the appended record cut at every byte (rest missing / zero-filled), re-opened and judged."""
+    binp = vlib.go_build("cmd/crashfs")
+    tmp = vlib.scratch("tornm-")
+    t0 = time.time()
+
+    def one(ci):
+        case = cases[ci]
+        r = crash_case((binp, case, ci, (), enc, tmp, False, False))
+        if "error" in r:
+            return {"error": r["error"]}
+        meta = json.load(open(os.path.join(r["dir"], "run.json")))
+        idx = [i for i, im in enumerate(meta["images"]) if im.get("torn")]
+        idx = idx[-per_case:]
+        if not idx:
+            return {"dev": [], "n": 0, "classes": set()}
+        env = vlib.goenv()
+        env["TMPDIR"] = r["dir"]
+        rc, so, se, _ = _run([binp, "torn", "-images", os.path.join(r["dir"], "images.gob"), "-list",
+                              ",".join(map(str, idx))], timeout=600, env=env)
+        if rc != 0:
+            return {"error": "crashfs torn rc=%s: %s" % (rc, se[-800:])}
+        dev, n, classes = [], 0, set()
+        for line in so.splitlines():
+            o = json.loads(line)
+            n += 1
+            im = meta["images"][o["obs"]["img"]]
+            bad = judge(case, meta, im, o["obs"], ["kill"])
+            hdr = "header" if o["rel"] < 8 else "payload"
+            classes.add("manifest|%s|%s|%s" % (o["fill"], hdr, case["ops"][im["op"]]["op"] if im["op"] >= 0 else "open"))
+            for what, detail in bad:
+                part = "len" if o["rel"] < 4 else "crc" if o["rel"] < 8 else "payload"
+                dev.append(("torn-manifest:%s fill=%s cut-in=%s" % (what, o["fill"], part),
+                            "record of %d bytes cut %d bytes into it (%s): %s" % (o["len"], o["rel"], o["fill"], detail[:200]), ci))
+        return {"dev": dev, "n": n, "classes": classes}
+    with cf.ThreadPoolExecutor(max_workers=nproc or min(vlib.NCPU, len(cases))) as ex:
+        outs = list(ex.map(one, range(len(cases))))
+    errs = [o for o in outs if "error" in o]
+    if errs:
+        raise Inconclusive("torn manifest (%s): %s" % (label, errs[0]["error"]))
+    dev = [d for o in outs for d in o["dev"]]
+    n = sum(o["n"] for o in outs)
+    classes = set()
+    for o in outs:
+        classes |= o["classes"]
+    c.cov["engines"].append({"torn": label, "workloads": len(cases), "variants_opened": n, "encrypted": enc,
+                             "deviating_variants": len(dev), "wall_s": round(time.time() - t0, 1)})
+    return dev, n, classes
+
+
+def report(c, prefix, dev, cases=None, limit=2000):
+    """Group deviations by signature and report them (known findings are matched on the signature)."""
+    by = {}
+    for d in dev:
+        by.setdefault(d[0], []).append(d)
+    for sig, ds in sorted(by.items()):
+        d = ds[0]
+        replay = {"detail": d[1]}
+        if cases is not None and len(d) > 2:
+            replay["case"] = cases[d[2]]
+            if isinstance(cases[d[2]], dict) and "ops" in cases[d[2]]:
+                replay = {"detail": d[1], "case": cases[d[2]], "image_kind": "kill", "note": "torn MANIFEST variants: crashfs torn"}
+        c.violation("%s:%s" % (prefix, sig), {"count": len(ds), "first": d[1][:limit]}, replay)
+
+
+# ------------------------------------------------------------------------------- --replay
+def replay_recorded(c):
+    """bin/check Cxx --replay <evidence/replays/Cxx/....json>: run the recorded failing case again
+    against the current tree. Returns True when a replay was requested (and handled)."""
+    if not c.replay:
+        return False
+    rec = json.load(open(c.replay))
+    obj = rec.get("case") or {}
+    sig = rec.get("signature", "disk:replay")
+    c.level = "fault_enumeration"     # a replay evaluates recorded cases only
+    if "image_kind" in obj:          # a crash point of a workload
+        binp = vlib.go_build("cmd/crashfs")
+        tmp = vlib.scratch("replay-")
+        kind = obj["image_kind"]
+        kinds = [kind] + ([PL_LENIENT[kind]] if kind in PL_LENIENT else [])
+        r = crash_case((binp, obj["case"], 0, [kind], obj.get("encrypted", False), tmp, False, False))
+        if "error" in r:
+            raise Inconclusive(r["error"])
+        sigs = {}
+        for f in r["findings"]:
+            sigs.setdefault(signature(f), f)
+        c.add_cases(r["nchecks"], r["classes"])
+        c.sample({"replayed": c.replay, "findings_now": sorted(sigs)[:10]})
+        c.cov["rule"] = "replay of one recorded workload: every crash point of the recorded image kind is re-judged"
+        for s2, f in sigs.items():
+            c.violation(s2, {"detail": f["detail"], "event": f["ev"], "point": f["point"]}, None)
+        return True
+    if "release" in obj:             # a drop / transaction race
+        outs = drop_writers(c, [obj["case"]], "replay")
+        c.add_cases(len(outs), set(o["release"] for o in outs))
+        c.sample({"replayed": c.replay, "schedules": len(outs)})
+        c.cov["rule"] = "replay of one recorded race case: every release point"
+        return True
+    if isinstance(obj.get("case"), dict) and "steps" in obj["case"]:   # a change-set sequence
+        res, dev, (ns, nt, nz) = manifest_replay(c, [obj["case"]], "replay", nproc=1)
+        report(c, "disk", [d for d in dev if not d[0].startswith("torn-manifest")] if c.prop == "C17" else dev, [obj["case"]])
+        c.add_cases(ns + nt + nz, set(d[0] for d in dev) | {"a", "b"})
+        c.sample({"replayed": c.replay, "deviations_now": sorted(set(d[0] for d in dev))})
+        c.cov["rule"] = "replay of one recorded change-set sequence"
+        return True
+    if isinstance(obj.get("case"), dict) and "recs" in obj["case"]:    # a WAL record sequence
+        dev, nv, cl = torn_wal(c, [obj["case"]], "enc" in sig, "replay", nproc=1)
+        report(c, "disk", dev, [obj["case"]])
+        c.add_cases(nv, cl | {"a", "b"})
+        c.sample({"replayed": c.replay, "deviations_now": sorted(set(d[0] for d in dev))})
+        c.cov["rule"] = "replay of one recorded WAL record sequence"
+        return True
+    raise Inconclusive("replay file %s carries no replayable case (signature %s)" % (c.replay, sig))
